@@ -286,6 +286,7 @@ def run_check(prop, a, bdir, seed, t0):
             j.unwind_fns = getattr(f, "unwind_fns", None)
             j.incdirs = [os.path.join(VERIF, "rt"), udir, ud]
             j.kf = kf_of.get(f.name, [])
+            j.only_for = getattr(f, "only_for", {})
             cases = getattr(f, "cases", None)
             for alt in getattr(f, "alt_contracts", []):
                 # a second contract of the same function (for particular call sites), enforced against the same body
@@ -305,6 +306,7 @@ def run_check(prop, a, bdir, seed, t0):
                     jc = driver.Job(uname, f.name + "+" + cname, "h_" + f.name, f.name, rep_c, [gen_c, har_c], defs + ["NITRO_CASE_%s=%d" % (f.name, ci)],
                                     rec=f.rec, props=f.props, unwind=f.unwind)
                     jc.timeout, jc.unwind_fns, jc.incdirs, jc.kf = j.timeout, j.unwind_fns, j.incdirs, j.kf
+                    jc.only_for = j.only_for
                     jobs.append(jc)
             else:
                 jobs.append(j)
@@ -382,6 +384,15 @@ def run_check(prop, a, bdir, seed, t0):
     violations = []
     known_lines = []
     for j in jobs:
+        flt = getattr(j, "only_for", {}).get(prop)
+        if flt and j.status == "failed":
+            # this function is evidence for the property only through some of its obligations (e.g. its frame condition):
+            # a failure of the others is reported by the checks of the properties they belong to, not here
+            kept = [r for r in j.failed if re.search(flt, r["name"])]
+            j.other_failed = [r["name"] for r in j.failed if not re.search(flt, r["name"])]
+            j.failed = kept
+            if not kept:
+                j.status, j.reason = "ok", "obligations outside this property's share failed: " + ", ".join(j.other_failed)[:200]
         if a.v:
             print("  job %-28s %-9s %5.1fs %s %s" % (j.name, j.status, j.seconds, j.backend, j.reason[:300]))
         if j.status == "undecided":
